@@ -90,7 +90,7 @@ def sample_cfg(rng, clean=None):
             if not (args["smatArg"] and args["pmatArg"] and src == "unitcell"):
                 args.update(fsFile=0, fcFile="none", nacArg=False, bornFile=False)
                 env.update(FS=0, FC="none", H5="none", BORN=False)
-    return one_layout(dict(obj=obj, st=st, comp=comp, args=args, env=env, big=rng.random() < 0.25))
+    return one_layout(dict(obj=obj, st=st, comp=comp, args=args, env=env, big=rng.random() < 0.25, zero=rng.random() < 0.35))
 
 
 def one_layout(cfg):
@@ -107,7 +107,7 @@ RAISED_DUMMY = dict(calc="none", units="std", scale="same",
                     fc=dict(src="none", layout="none", sym=False),
                     nac=dict(src="none", method="none", factor="none"),
                     q=dict(symbols=True, lattice=0, positions=0, masses=0, magmoms=0, smat=True, pmat=0, maps=True,
-                           ds=0, fc=0, nac=0, phonons=-1))
+                           ds=0, fc=0, nac=0, zeros=0, phonons=-1))
 
 
 def run_one(cfg, seed, gonze_budget=1.0):
@@ -148,7 +148,7 @@ def run_one(cfg, seed, gonze_budget=1.0):
                     q["phonons"], obs["scale"] = compare_phonons(w, ph, ph2, obs)
         ev = dict(eo=cfg["obj"], es=cfg["st"], ec=cfg["comp"], ea=cfg["args"], ee=cfg["env"],
                   w=wr, container=w.container, named="xz" if w.filename.endswith(".xz") else "plain", obs=obs,
-                  big=bool(cfg.get("big")), wseed=seed)
+                  big=bool(cfg.get("big")), zero=bool(cfg.get("zero")), wseed=seed)
         return ev, dict(text=w.text, ph=ph, ph2=ph2, fc_exact=consistent_fc is None, ydoc=ydoc, obj_order=w.obj_order)
 
 
@@ -233,6 +233,7 @@ INVARIANT ImplLoads
 INVARIANT ImplTolerance
 INVARIANT ImplAtomOrder
 INVARIANT ImplNumbers
+INVARIANT ImplZeros
 INVARIANT ImplPhonons
 INVARIANT ConformsWritten
 INVARIANT ConformsContainer
@@ -438,7 +439,7 @@ def saveload_layer(ctx, col, replay_cfgs=None):
                      ("factor(obj,loaded)", "%s,%s" % (e["eo"]["np"]["factor"], o["np"]["freq"])), ("scale", o["scale"]),
                      ("partial_nac_written", e["w"]["nac"]["born"] != e["w"]["nac"]["eps"]),
                      ("ext", e["eo"]["cell"]["ext"]), ("mag", e["eo"]["cell"]["mag"]), ("masses", e["eo"]["cell"]["masses"]),
-                     ("generic_lattice", e["eo"]["cell"]["generic"]), ("big_values", e["big"]),
+                     ("generic_lattice", e["eo"]["cell"]["generic"]), ("big_values", e["big"]), ("zero_values", e["zero"]),
                      ("phonons", {-2: "skipped(budget)", -1: "not comparable"}.get(o["q"]["phonons"], "compared"))):
             stats.setdefault(k, {})
             stats[k][str(v)] = stats[k].get(str(v), 0) + 1
@@ -610,6 +611,8 @@ INVARIANT ImplTokens
 INVARIANT ImplValues
 INVARIANT ImplPrecision
 INVARIANT ImplBack
+INVARIANT ImplZerosKept
+INVARIANT ImplZerosWritten
 INVARIANT ImplFileRead
 INVARIANT ConformsText
 """
@@ -621,6 +624,7 @@ CHECK_DEADLOCK FALSE
 INVARIANT InvTokens
 INVARIANT InvValues
 INVARIANT InvPrecision
+INVARIANT InvZerosKept
 """
 
 
@@ -986,7 +990,7 @@ def run(ctx):
             rp = json.load(f)
         e = (rp.get("detail") or {}).get("event") or {}
         if "eo" in e:
-            cfg = dict(obj=e["eo"], st=e["es"], comp=e["ec"], args=e["ea"], env=e["ee"], big=e.get("big", False))
+            cfg = dict(obj=e["eo"], st=e["es"], comp=e["ec"], args=e["ea"], env=e["ee"], big=e.get("big", False), zero=e.get("zero", False))
             events, texts, violated = saveload_layer(ctx, col, replay_cfgs=[(cfg, int(e.get("wseed", 0)))])
             return
         ctx.seed = int(rp.get("seed", ctx.seed))
